@@ -185,15 +185,19 @@ def modShift : Nat := 1
 def modAlt : Nat := 2
 def modCtrl : Nat := 4
 
-/-- The guard `len(seq.Intermediate) != 1 OP seq.Intermediate[0] != '<'`; the operator is read
-from the source (`Gen.Caps.mouseGuardIsOr`).  `true` = reject. -/
-def mouseGuard (interm : List Nat) : Except Panic Bool :=
-  if Gen.Caps.mouseGuardIsOr then
+/-- The guard `len(seq.Intermediate) != 1 OP seq.Intermediate[0] != '<'` with `OP` = `||`
+(`isOr`) or `&&`; Go evaluates the right operand only when the left one does not decide.
+`true` = reject. -/
+def mouseGuardWith (isOr : Bool) (interm : List Nat) : Except Panic Bool :=
+  if isOr then
     if interm.length != 1 then .ok true
     else do let c ← idx interm 0; pure (c != ch '<')
   else
     if interm.length != 1 then do let c ← idx interm 0; pure (c != ch '<')
     else .ok false
+
+/-- The guard as written in the current source (`Gen.Caps.mouseGuardIsOr`). -/
+def mouseGuard (interm : List Nat) : Except Panic Bool := mouseGuardWith Gen.Caps.mouseGuardIsOr interm
 
 /-- Go `x & m` for a two's-complement `int` `x` and a constant mask `m < 256`: only the low eight
 bits of `x` matter, and `x % 256` (Euclidean) is exactly those bits. -/
